@@ -893,5 +893,11 @@ V('C17', 'workspace-from-workspace-not-copied', 'fire', 'C17.R6', 'the Workspace
   ('src/pyhf/workspace.py', "        spec = copy.deepcopy(spec)\n        self.schema = config_kwargs.pop('schema', 'workspace.json')\n", "        if not isinstance(spec, Workspace):\n            spec = copy.deepcopy(spec)\n        self.schema = config_kwargs.pop('schema', 'workspace.json')\n"))
 V('C17', 'workspace-copy-through-a-local-name', 'silent', '', "the Workspace constructor's copy spelled with a differently named local",
   ('src/pyhf/workspace.py', "        spec = copy.deepcopy(spec)\n        self.schema = config_kwargs.pop('schema', 'workspace.json')\n", "        document = copy.deepcopy(spec)\n        spec = document\n        self.schema = config_kwargs.pop('schema', 'workspace.json')\n"))
+V('C19', 'optconf-split-at-last-equals', 'fire', 'C19.R6', "--optconf split at the LAST '='",
+  ('src/pyhf/utils.py', '        f"{opt.split(\'=\', 1)[0]}: {opt.split(\'=\', 1)[1]}" for opt in opts\n', '        f"{opt.rsplit(\'=\', 1)[0]}: {opt.rsplit(\'=\', 1)[1]}" for opt in opts\n'))
+V('C19', 'optconf-partition', 'silent', '', '--optconf split with str.partition',
+  ('src/pyhf/utils.py', '        f"{opt.split(\'=\', 1)[0]}: {opt.split(\'=\', 1)[1]}" for opt in opts\n', '        f"{opt.partition(\'=\')[0]}: {opt.split(\'=\', 1)[1]}" for opt in opts\n'))
+V('C02', 'expected-data-without-aux-takes-constraint', 'fire', 'C02.R4', 'expected_data(include_auxdata=False) returns the constraint part',
+  ('src/pyhf/pdf.py', '            return self.make_pdf(pars)[0].expected_data()\n', '            return self.make_pdf(pars)[1].expected_data()\n'))
 V("C13", "code4-exponent-mask-strict", "fire", "C13.R3", "code 4 takes exponent 1 (a constant) exactly at |alpha| = alpha0",
   ("src/pyhf/interpolators/code4.py", "            exponents >= self.__alpha0, exponents, self.ones", "            exponents > self.__alpha0, exponents, self.ones"))
